@@ -150,6 +150,11 @@ BAD_REQLINES = [(b"FOO / HTTP/1.1", True), (b"get / HTTP/1.1", True), (b"GET /",
                 (b"GET /a b HTTP/1.1", False), (b"GET / HTTP/", False), (b"GET / HTTP/1.1.1", False)]
 BAD_CL = [b"-1", b"-0", b"+5", b"abc", b"1e3", b"0x10", b"5, 5", b"5,6", b" 5", b"5 ", b"", b"99999999999999999999", b"1" * 5000,
           b"\xb2", b"\xb9\xb2", b"5\x00", b"\xd9\xa5", b"4.0", b"1_0", b"0", b"00", b"5;q=1", b"--5"]
+CT_VALUES = [b"text/plain; charset=nope-9", b"application/json; charset=\"x-unknown\"", b"text/plain; charset=", b"text/plain; charset=utf-8*",
+             b"text/plain;charset", b"text/plain; charset=utf-8; boundary=x", b"application/json;;;", b"; charset=latin-1",
+             b"text/event-stream; charset=klingon", b"multipart/form-data; boundary=", b"text/plain; charset=\xff",
+             b"application/json; charset=utf-16", b"text/plain; CHARSET=UTF-8", b"a/b; c=d; charset=ebcdic-xyz", b"", b";", b"=",
+             b"application/json; charset=\x00", b"text/plain; charset=" + b"x" * 300, b"text/plain; charset=idna", b"text/plain; charset=hex"]
 TE_VALUES = [b"chunked", b"Chunked", b"CHUNKED", b"chunked, chunked", b"gzip, chunked", b"identity", b"chunked;q=1", b" chunked",
              b"chunked ", b"xchunked", b"\x00", b"", b"chunked\t"]
 BAD_STATUS = [(b"HTTP/1.1 abc OK", True), (b"HTTP/1.1 99 Low", True), (b"HTTP/1.1 1000 High", True), (b"HTTQ/1.1 200 OK", True),
@@ -308,6 +313,14 @@ def shape_common(rng, m, name, is_request):
         m.setheader(b"Content-Length", v)
         if rng.random() < 0.25:
             m.headers.append(b"Content-Length: " + rng.choice(BAD_CL + [b"5", b"7"]))
+    elif name == "content_type":
+        body = rng.choice([b"{}", b"a=1", b"\xff\xfe", b"data: x\n\n"])
+        m.chunks = None
+        m.body = body
+        if is_request and m.start.startswith((b"GET", b"HEAD", b"OPTIONS")):
+            m.start = b"POST /ct HTTP/1.1"
+        m.setheader(b"Content-Length", b"%d" % len(body))
+        m.setheader(rng.choice([b"Content-Type", b"content-type"]), rng.choice(CT_VALUES))
     elif name == "transfer_encoding":
         v = rng.choice(TE_VALUES)
         m.headers = [h for h in m.headers if not h.lower().startswith(b"transfer-encoding")]
@@ -346,10 +359,10 @@ def shape_common(rng, m, name, is_request):
     return m.render()
 
 
-REQ_SHAPES = ["hdr_nosep", "hdr_nosep", "chunk_size", "chunk_size", "chunk_end", "chunk_ext", "trailer", "content_length",
+REQ_SHAPES = ["content_type", "hdr_nosep", "hdr_nosep", "chunk_size", "chunk_size", "chunk_end", "chunk_ext", "trailer", "content_length",
               "transfer_encoding", "nonascii", "eol", "many_headers", "dup_headers", "empty_lines", "target", "target", "reqline",
               "pipeline"]
-RSP_SHAPES = ["hdr_nosep", "hdr_nosep", "chunk_size", "chunk_size", "chunk_end", "chunk_ext", "trailer", "content_length",
+RSP_SHAPES = ["content_type", "hdr_nosep", "hdr_nosep", "chunk_size", "chunk_size", "chunk_end", "chunk_ext", "trailer", "content_length",
               "transfer_encoding", "nonascii", "eol", "many_headers", "dup_headers", "empty_lines", "statusline", "statusline",
               "location", "location", "sse", "json", "continue", "bodyless_status", "pipeline"]
 
